@@ -206,8 +206,15 @@ class C04(Prop):
                 if isinstance(p, dict):
                     if case['proto'] == 'v1' and not ('result' in p and 'error' in p and (p['result'] is None or p['error'] is None)):
                         return 'the 1.0 decoder accepted a response that does not carry result and error with one of them null'
-                    if case['proto'] == 'v2' and (p.get('jsonrpc') != '2.0' or ('result' in p) == ('error' in p)):
+                    if case['proto'] == 'v2' and (not isinstance(p.get('jsonrpc'), str) or p.get('jsonrpc') != '2.0' or ('result' in p) == ('error' in p)):
                         return 'the 2.0 decoder accepted a response without "jsonrpc":"2.0" or without exactly one of result/error'
+            if obs['kind'] in ('req', 'notif') and case['proto'] in ('v2', 'auto'):
+                try:
+                    p = json.loads(bytes(case['msg']).decode('utf-8', 'surrogatepass'))
+                except Exception:
+                    p = None
+                if isinstance(p, dict) and not (isinstance(p.get('jsonrpc'), str) and p.get('jsonrpc') == '2.0'):
+                    return 'the 2.0 decoder accepted a request / notification whose "jsonrpc" member is not the string "2.0"'
             return None
         if k == 'detect':
             if isinstance(obs['proto'], str) and obs['proto'].startswith('escape'):
